@@ -1,0 +1,15 @@
+//! Hooks for property C06 (references and finalizers): a read-only view of the finalizable
+//! processor's tables, so that the harness can *locate* (and then walk) the objects that only
+//! MMTk keeps alive between a collection and `get_finalized_object`.  Thin wrapper only.
+
+use crate::util::ObjectReference;
+use crate::vm::VMBinding;
+use crate::MMTK;
+
+/// `(candidates, ready_for_finalize)` of the instance's finalizable processor as object
+/// references, in table order.  Does not modify anything.
+pub fn finalizable_tables<VM: VMBinding>(
+    mmtk: &MMTK<VM>,
+) -> (Vec<ObjectReference>, Vec<ObjectReference>) {
+    mmtk.finalizable_processor.lock().unwrap().verif_tables()
+}
